@@ -125,7 +125,7 @@ type errSite struct {
 
 func runC08(c *Ctx) {
 	P, R := c.P, c.R
-	R.Require("C08.errors", 10)
+	R.Require("C08.errors", 14)
 	R.Require("C08.cause", 30)
 	R.Require("C08.excl", 8)
 	R.Require("C08.fullread", 9)
@@ -551,6 +551,18 @@ func checkErrorsPkg(c *Ctx) {
 		}
 		R.Check(okNil, "C08.errors", "errors|"+name+"|nil-yields-nil", P.Pos(fn.Pos()),
 			"wrapping nil returns the nil constant", "wrapping a nil error does not return nil (callers' 'err != nil' tests would see a failure that never happened)", nil)
+		// (1b) wrapping allocates: no store into anything but objects created in this call
+		pure := true
+		core.EachInstr(fn, func(in ssa.Instruction) {
+			if st, ok := in.(*ssa.Store); ok {
+				if _, isAlloc := core.PathRoot(st.Addr).(*ssa.Alloc); !isAlloc {
+					pure = false
+				}
+			}
+		})
+		R.Check(pure, "C08.errors", "errors|"+name+"|no-mutation", P.Pos(fn.Pos()),
+			"the wrapped error is never modified (wrapping only allocates new layers)",
+			"the constructor writes into an existing error value: wrapping the same error twice (or keeping the inner error) yields chains with layers that were never attached", nil)
 		// (2) the chain of wrappers ends at the parameter, each through the field Cause() returns
 		okChain, detail := wrapChain(P, fn, errP)
 		R.Check(okChain, "C08.errors", "errors|"+name+"|cause-chain", P.Pos(fn.Pos()),
